@@ -1,10 +1,14 @@
 import DdoModel.Proofs.CacheClosedContract
 import DdoModel.Proofs.CacheClosedDefs
 /-! C09 (closing the caching solver) — the loop invariant `KInvSt` of the concrete caching solver of
-`Proofs/CacheClosedDefs.lean` and its preservation by one turn (`kturn_inv`): from a state that satisfies the invariant, for
-any popped node with the largest upper bound, the turn does not panic (`kturn = some t`: both compilations end normally,
-every cache access is in range), `t` satisfies the invariant, and the projection on the sequential state is a `Step` of
-`Props/C01t.lean` (termination measure).
+`Proofs/CacheClosedDefs.lean` and its preservation by one turn (`kturn_inv`): from a state that satisfies the invariant,
+**whatever node of the fringe is popped** (no hypothesis on the pop order), the turn does not panic (`kturn = some t`: both
+compilations end normally, every cache access is in range), `t` satisfies the invariant, and the projection on the sequential
+state is a `Step` of `Props/C01t.lean` (termination measure).
+
+(Before the repair of finding D14 — `enqueue_cutset(ub)` capping the cut-set nodes by the bound of the processed node —
+`kprocess_inv` / `kturn_inv` carried the best-first hypothesis `hbf`: the popped node has the largest upper bound.  The
+coverage part, `processC_inv_any` of `Proofs/SeqCacheDedup.lean`, no longer needs it.)
 
 `KInvSt` = what `Ddo.C01.CInvAt` says about the sequential state (open sub-problems reached exactly, incumbent `isize::MIN` or
 the value of the stored solution, no abort, nothing reported for an infeasible problem), the `open_by_layer` bookkeeping
@@ -47,7 +51,7 @@ theorem process_main (dedup : Bool) (st : SeqSt S) (N : SubP S) (r x : DDOut S) 
     (st.process dedup N true (.ok r) (.ok x)).1 =
       if r.isExact then st.updateBest r
       else if x.isExact then (st.updateBest r).updateBest x
-      else ((st.updateBest r).updateBest x).enqueue dedup N.ub x.cutset := by
+      else ((st.updateBest r).updateBest x).enqueue dedup x.cutset := by
   unfold SeqSt.process
   rw [if_neg h]
   simp only [Bool.not_true, Bool.false_eq_true, if_false]
@@ -85,8 +89,8 @@ theorem lb_range {B lb : Int} (hB : B ≤ 4611686018427387904) (h1 : lb ≤ B) (
 
 /-! ## one `process_one_node` -/
 
-/-- **`process_one_node` with the cache preserves the invariant and does not panic**: `st` = the popped state, `N` in hand
-    (with the largest upper bound: `hbf`), `c0` the cache -/
+/-- **`process_one_node` with the cache preserves the invariant and does not panic, whatever node was popped**: `st` = the
+    popped state, `N` in hand (**any** node of the fringe), `c0` the cache -/
 theorem kprocess_inv {sv : SolverCfg S} {H : Nat → S → EInt} {B0 B : Int} (hwf : WellFormed sv H B0 B)
     (st : SeqSt S) (c0 : Cache S) (N : SubP S)
     (hN : C01.NodeOk sv.P N) (hnodes : ∀ c ∈ st.fringe, C01.NodeOk sv.P c) (hlbLo : iMin ≤ st.bestLb)
@@ -95,7 +99,6 @@ theorem kprocess_inv {sv : SolverCfg S} {H : Nat → S → EInt} {B0 B : Int} (h
       CInvC H opt (SolOf sv.P) (RgB B) (N :: st.fringe) (viewOf c0) st.bestLb st.bestSol)
     (hinf : (H 0 sv.P.init).addI sv.P.initVal = none → st.bestLb = iMin ∧ st.bestSol = none)
     (hclen : c0.layers.length = sv.P.nbVars + 1)
-    (hbf : ∀ c ∈ st.fringe, c.ub ≤ N.ub)
     (hlay : LayersOk sv.P.nbVars st.openByLayer st.fringe) (hcr : st.crashed = false) :
     ∃ (t : KSt S) (me : Bool) (r x : DDRes S), sv.kprocess st c0 N = some t ∧ t.st = (st.process sv.dedup N me r x).1 ∧
       (∀ o, x = .ok o → ∀ c ∈ o.cutset, N.depth < c.depth ∧ c.depth ≤ sv.P.nbVars) ∧ KInvSt sv H B t := by
@@ -258,7 +261,7 @@ theorem kprocess_inv {sv : SolverCfg S} {H : Nat → S → EInt} {B0 B : Int} (h
           (hwf.width N) hwf.pot hwf.rub hwf.merge hwf.attMerge hBN hl1b hroot hperm hdN hopt hval hokX _
           (fun u hu => List.mem_reverse.mp hu)
       have hmain := processC_inv_any H opt (SolOf sv.P) (RgB B) sv.dedup st (viewOf c0) N (toOut r) r.cacheUpdates.reverse
-        (toOut x) x.cacheUpdates.reverse (hfeas opt hopt) hbf hrs hR (fun hex => hrups hex) hX
+        (toOut x) x.cacheUpdates.reverse (hfeas opt hopt) hrs hR (fun hex => hrups hex) hX
       have hst : stateAfterD sv.dedup st (viewOf c0) N (toOut r) (toOut x) =
           (st.process sv.dedup N true (.ok (toOut r)) (.ok (toOut x))).1 := by
         unfold stateAfterD; rw [decide_eq_true hp]
@@ -314,11 +317,11 @@ theorem kprocess_inv {sv : SolverCfg S} {H : Nat → S → EInt} {B0 B : Int} (h
 theorem popped_more (s : SeqSt S) (N : SubP S) (rest : List (SubP S)) (fa : Nat) :
     (popped s N rest fa).abort = s.abort := afterPop_abort _ N
 
-/-- **one turn of the caching solver** from a state that satisfies the invariant, the popped node having the largest
-    upper bound: no panic, the invariant is preserved, and the sequential state makes a `Step` of `Props/C01t.lean` -/
+/-- **one turn of the caching solver** from a state that satisfies the invariant, **any** node of the fringe being popped:
+    no panic, the invariant is preserved, and the sequential state makes a `Step` of `Props/C01t.lean` -/
 theorem kturn_inv {sv : SolverCfg S} {H : Nat → S → EInt} {B0 B : Int} (hwf : WellFormed sv H B0 B)
     (s : KSt S) (N : SubP S) (rest : List (SubP S)) (hpop : s.st.fringe.Perm (N :: rest))
-    (hbf : ∀ c ∈ rest, c.ub ≤ N.ub) (hI : KInvSt sv H B s) :
+    (hI : KInvSt sv H B s) :
     ∃ t, sv.kturn s N rest = some t ∧ KInvSt sv H B t ∧ C01t.Step sv.P.nbVars sv.dedup s.st t.st := by
   obtain ⟨c0, hc0, hl0, hv0⟩ := cleanCache_spec sv.P.nbVars s.st.openByLayer sv.P.nbVars s.st.firstActive s.cache hI.clen
   generalize hfa : cleanLoop sv.P.nbVars s.st.openByLayer sv.P.nbVars s.st.firstActive = fa
@@ -336,7 +339,7 @@ theorem kturn_inv {sv : SolverCfg S} {H : Nat → S → EInt} {B0 B : Int} (hwf 
       rw [f1, f2, f3]
       exact cinvC_forget H opt (SolOf sv.P) (RgB B) _ (viewOf s.cache) (viewOf c0) _ _ hv0
         (cinvC_perm H opt (SolOf sv.P) (RgB B) hpop (hI.feas opt hopt)))
-    (by rw [f2, f3]; exact hI.infeas) hl0 (by rw [f1]; exact hbf) g1 (g2.trans hI.lay.2)
+    (by rw [f2, f3]; exact hI.infeas) hl0 g1 (g2.trans hI.lay.2)
   refine ⟨t, ?_, hT, ?_⟩
   · unfold SolverCfg.kturn
     rw [hc0, hfa]
@@ -344,7 +347,59 @@ theorem kturn_inv {sv : SolverCfg S} {H : Nat → S → EInt} {B0 B : Int} (hwf 
   · rw [hst]
     exact C01t.Step.pop s.st N rest fa me r x hpop hprog
 
+/-! ## the reported bounds over one turn (no hypothesis at all: read off the code) -/
+
+theorem enqueue_bestLb (dedup : Bool) (st : SeqSt S) (cs : List (SubP S)) : (st.enqueue dedup cs).bestLb = st.bestLb := by
+  cases dedup
+  · exact (enqueue_false_spec st cs).1
+  · exact (enqueue_true_spec st cs).1
+
+/-- `process_one_node` never writes `best_ub` and never lowers the incumbent -/
+theorem kprocess_bounds (sv : SolverCfg S) (st : SeqSt S) (c0 : Cache S) (N : SubP S) (t : KSt S)
+    (h : sv.kprocess st c0 N = some t) : t.st.bestUb = st.bestUb ∧ st.bestLb ≤ t.st.bestLb := by
+  unfold SolverCfg.kprocess at h
+  split at h
+  · cases h; exact ⟨rfl, Int.le_refl _⟩
+  · split at h
+    · cases h
+    · cases h; exact ⟨rfl, Int.le_refl _⟩
+    · split at h
+      · cases h
+      · split at h
+        · cases h
+        · dsimp only at h
+          have u : ∀ (a : SeqSt S) (o : DDOut S), (a.updateBest o).bestUb = a.bestUb := fun a o => (updateBest_fringe a o).2.1
+          have l : ∀ (a : SeqSt S) (o : DDOut S), a.bestLb ≤ (a.updateBest o).bestLb := updateBest_lb_ge
+          split at h
+          · cases h; exact ⟨u _ _, l _ _⟩
+          · split at h
+            · cases h
+            · split at h
+              · cases h
+              · split at h
+                · cases h; exact ⟨(u _ _).trans (u _ _), Int.le_trans (l _ _) (l _ _)⟩
+                · cases h
+                  refine ⟨?_, ?_⟩
+                  · show (SeqSt.enqueue _ _ _).bestUb = _
+                    rw [C05.enqueue_bestUb]; exact (u _ _).trans (u _ _)
+                  · show _ ≤ (SeqSt.enqueue _ _ _).bestLb
+                    rw [enqueue_bestLb]; exact Int.le_trans (l _ _) (l _ _)
+
+/-- **one turn**: the reported upper bound becomes the running minimum `min best_ub N.ub` (written by `get_workload` at the
+    pop, never touched by `process_one_node`), and the incumbent does not decrease — whatever node is popped -/
+theorem kturn_bounds (sv : SolverCfg S) (s t : KSt S) (N : SubP S) (rest : List (SubP S))
+    (h : sv.kturn s N rest = some t) : t.st.bestUb = min s.st.bestUb N.ub ∧ s.st.bestLb ≤ t.st.bestLb := by
+  unfold SolverCfg.kturn at h
+  split at h
+  · cases h
+  · obtain ⟨h1, h2⟩ := kprocess_bounds sv _ _ N t h
+    obtain ⟨_, f2, _⟩ := popped_fields s.st N rest (cleanLoop sv.P.nbVars s.st.openByLayer sv.P.nbVars s.st.firstActive)
+    rw [f2] at h2
+    refine ⟨h1.trans ?_, h2⟩
+    exact (C05.afterPop_ub_le _ N).2.2
+
 end Ddo.C09
 
 #print axioms Ddo.C09.kprocess_inv
 #print axioms Ddo.C09.kturn_inv
+#print axioms Ddo.C09.kturn_bounds
